@@ -51,6 +51,9 @@ def run(ctx) -> None:
     from .common import memo_rule
 
     ctx.guard("C15.instance-state", memo_rule, "C15.instance-state", ("transform.py",))
+    from . import objmodel
+
+    ctx.guard("C15.instance-state", objmodel.descriptor_state, "C15.instance-state", "the tables of one transform object are served to another")
     ctx.reuse("C15.helpers", c08.id_templates)
     ctx.reuse("C15.helpers", c08.grid_construction)
 
@@ -421,8 +424,9 @@ def randomizer(ctx) -> None:
     detail = "self.rng is not created"
     if len(rng) == 1:
         v = fv.res.resolve(rng[0].ast.value, rng[0].id)
-        if isinstance(v, ast.Call) and call_fname(v) in ("RandomState", "default_rng", "Generator") and len(v.args) == 1 and not v.keywords:
-            a = v.args[0]
+        if isinstance(v, ast.Call) and call_fname(v) in ("RandomState", "default_rng", "Generator") and (
+                (len(v.args) == 1 and not v.keywords) or (not v.args and len(v.keywords) == 1 and v.keywords[0].arg == "seed")):
+            a = v.args[0] if v.args else v.keywords[0].value
             ok = is_name(a, "random_seed") or attr_of_name(a, selfn, "random_seed")
             detail = f"the generator is seeded with `{show(a)}` instead of exactly the given seed (e.g. seed 0 would fall back to OS entropy)"
         else:
